@@ -6,6 +6,11 @@ HERE = os.path.dirname(os.path.abspath(__file__))
 
 # id -> (level, technique, text, note)   (only implemented checks are listed; the rest go to not_applicable)
 CHECKS = {
+    "C02": ("model_checking",
+            "exhaustive enumeration of update histories (all sequences of <=3 xref sections over <=3 object numbers, every entry state and section format) generated as real files, loaded by the real reader and compared with a map-based reference model of 'newest mention wins'",
+            "The history space (sections x format x per-object {absent, direct, compressed, free}) is a full product; every history, including every prefix length, is materialised by the independent assembler and every object number below /Size is resolved through the library and compared with the reference model; free/undefined numbers must give a free/missing error; trailer root/size/ID must be the newest section's.",
+            "Trusted: the assembler's well-formedness (generation bump on free/re-use, compressed only at generation 0 in stream sections). Hybrid /XRefStm files are not generated. More than 3 sections / 3 object numbers not covered.",
+            "§5 C02"),
     "C04": ("model_checking",
             "exhaustive value sweeps (all 1-2 byte strings, every Unicode scalar as a name, all 2^32 integers and all finite f32 in thorough) x writer placements, each serialised by the real writer and read back by the real parser",
             "The value domains the property names are enumerated completely within the stated sizes and pushed through every placement the writer uses (array first/middle/last, dictionary value and key, alone, content-stream operand via serialize_ops/parse_ops, indirect object through the real Updater::create + Storage::save + reload).",
